@@ -913,6 +913,143 @@ func seqReplay(nworkers int, behaviours [][]seqOp, ev events, opw *vtrace.Writer
 	ev.w.Raw(map[string]any{"ev": "End", "t": "", "id": 0, "ws": []string{}, "n": 0, "g": 0, "ls": []int{}, "run": []string{}})
 }
 
+// ---------------------------------------------------------------- burst witnesses (schedules the puppet cannot gate)
+
+// A burst witness is the operation-level projection of a TLC counterexample in which several pushes land
+// between a Signal and the signalled worker's wake-up (the wake-up happens inside the Go runtime, so it cannot
+// be gated). It is reproduced with GOMAXPROCS(1): the signalled goroutine is only made runnable, the pushing
+// goroutine keeps the processor and performs the whole burst before anybody else runs.
+//
+//	{"op":"take","t":"w0"}   worker w0 calls take and holds its turn (does not come back) once it returns
+//	{"op":"push","n":2}      n pushes back to back
+type burstOp struct {
+	Op string `json:"op"`
+	T  string `json:"t"`
+	N  int    `json:"n"`
+}
+
+func burstReplay(nworkers int, behaviours [][]burstOp, ev events) {
+	old := runtime.GOMAXPROCS(1)
+	defer runtime.GOMAXPROCS(old)
+	for _, b := range behaviours {
+		if deadlineHits.Load() >= maxDeadlineHits {
+			break
+		}
+		ev.w.Raw(map[string]any{"ev": "New", "t": "", "id": 0, "ws": []string{}, "n": 0, "g": 0, "ls": []int{}, "run": []string{}})
+		q := actor.VerifNewReadyQueue(nworkers)
+		tr := newTracker()
+		var threads []string
+		var wg sync.WaitGroup
+		release := make(chan struct{})
+		next := 0
+		// settle: every started worker either sleeps on the condvar or holds its turn, and (if somebody sleeps)
+		// the global ring is empty; gives up at the deadline
+		settle := func() (sleepers []string, g int, ls []int, parked int, ok bool) {
+			deadline := time.Now().Add(quiesceDeadline)
+			for {
+				sleepers = nil
+				busy := false
+				tr.mu.Lock()
+				for _, t := range threads {
+					if tr.inTake[t] {
+						sleepers = append(sleepers, t)
+					} else if !tr.done[t] && !tr.exited[t] {
+						busy = true // between start and take / between take and turn
+					}
+				}
+				tr.mu.Unlock()
+				var lok bool
+				g, ls, parked, lok = q.TryLens()
+				if lok && !busy && parked == len(sleepers) && (g == 0 || len(sleepers) == 0) {
+					return sleepers, g, ls, parked, true
+				}
+				if time.Now().After(deadline) {
+					return sleepers, g, ls, parked, false
+				}
+				time.Sleep(200 * time.Microsecond)
+			}
+		}
+		for _, o := range b {
+			switch o.Op {
+			case "take":
+				t := o.T
+				idx, _ := strconv.Atoi(t[1:])
+				threads = append(threads, t)
+				tr.set(tr.inTake, t, true)
+				wg.Add(1)
+				go func() {
+					defer wg.Done()
+					var it *actor.VerifItem
+					var ok bool
+					if !guard(ev, t, func() { it, ok = q.Take(idx) }) {
+						return
+					}
+					if !ok {
+						ev.simple("exit", t, 0)
+						tr.mu.Lock()
+						tr.inTake[t], tr.exited[t], tr.done[t] = false, true, true
+						tr.mu.Unlock()
+						return
+					}
+					ev.simple("take", t, it.ID)
+					tr.mu.Lock()
+					tr.inTake[t], tr.done[t] = false, true // holds its turn: never comes back to take
+					tr.mu.Unlock()
+					<-release
+				}()
+				settle()
+			case "push":
+				items := make([]*actor.VerifItem, o.N)
+				for k := range items {
+					next++
+					items[k] = &actor.VerifItem{ID: next}
+					ev.simple("issue", "p1", next)
+				}
+				func() { // the burst: nothing in here blocks or yields
+					for _, it := range items {
+						q.Push(it)
+					}
+				}()
+				sleepers, g, ls, parked, ok := settle()
+				sort.Strings(sleepers)
+				if !ok {
+					deadlineHits.Add(1)
+				}
+				if len(sleepers) > 0 {
+					ev.emit("rest", "", 0, sleepers, parked, g, ls, nil)
+				}
+			}
+		}
+		close(release)
+		var blocked []string
+		tr.mu.Lock()
+		for _, t := range threads {
+			if tr.inTake[t] {
+				blocked = append(blocked, t)
+			}
+		}
+		tr.mu.Unlock()
+		finalize(q, ev, tr, blocked, nworkers, func() bool { return false }, q.Close, func(d time.Duration) []string {
+			ch := make(chan struct{})
+			go func() { wg.Wait(); close(ch) }()
+			select {
+			case <-ch:
+			case <-time.After(d):
+			}
+			var ne []string
+			tr.mu.Lock()
+			for _, t := range blocked {
+				if !tr.exited[t] && tr.inTake[t] {
+					ne = append(ne, t)
+				}
+			}
+			tr.mu.Unlock()
+			return ne
+		}, nil)
+	}
+	ev.w.Raw(map[string]any{"ev": "End", "t": "", "id": 0, "ws": []string{}, "n": 0, "g": 0, "ls": []int{}, "run": []string{}})
+}
+
 func main() {
 	if len(os.Args) < 2 {
 		fatal("usage: readyqueue replay|stress|seq ...")
@@ -947,6 +1084,25 @@ func main() {
 		}
 		out, _ := json.Marshal(st)
 		fmt.Println(string(out))
+	case "burst":
+		if len(os.Args) != 5 {
+			fatal("usage: readyqueue burst <workers> <behaviours> <events>")
+		}
+		nw, _ := strconv.Atoi(os.Args[2])
+		behaviours, err := vtrace.ReadLines[[]burstOp](os.Args[3])
+		if err != nil {
+			fatal(err)
+		}
+		w, err := vtrace.Create(os.Args[4])
+		if err != nil {
+			fatal(err)
+		}
+		burstReplay(nw, behaviours, events{w})
+		cnt := w.Count()
+		if err := w.Close(); err != nil {
+			fatal(err)
+		}
+		fmt.Printf("{\"behaviours\":%d,\"events\":%d,\"deadline_hits\":%d}\n", len(behaviours), cnt, deadlineHits.Load())
 	case "seq":
 		if len(os.Args) != 6 {
 			fatal("usage: readyqueue seq <workers> <behaviours> <events> <ops>")
